@@ -23,6 +23,8 @@
 //	                      until n or all pending bytes were taken)
 //	                      => k=<bytes handed over> f=<len:fnv64 of every frame delivered, in order | ->
 //	eof                   the reader reports io.EOF                => nil | err  (return value)
+//	                      app kind: + h=<len:fnv64 of EVERY packet delivered in this history, which the
+//	                      harness retained without copying, digested again now>
 //
 // A Read offered an empty slice is reported as "stall ..." (the real loop would spin on (0,nil));
 // a reader goroutine that neither comes back to Read nor returns within the watchdog time as
@@ -145,6 +147,7 @@ type run struct {
 	send   func([]byte) // its sendFrame
 	closeS func()       // its Close
 	blocks [][]byte     // blocks defined and not yet sent
+	kept   [][]byte     // app kind: every delivered packet, retained uncopied
 }
 
 var cur *run
@@ -319,7 +322,11 @@ func start(kind string) *run {
 		f := appface.VerifNewStreamFaceOnConn(r.c, true)
 		f.SetCallback(func(rd enc.ParseReader) error {
 			w := rd.Range(0, rd.Length())
-			onFrame(w.Join())
+			b := w.Join()
+			onFrame(b)
+			// the engine keeps slices of the packets it is handed (names, content): retain the
+			// delivered packet WITHOUT copying; it is digested again at eof
+			r.kept = append(r.kept, b)
 			return nil
 		}, func(err error) error {
 			if errors.Is(err, io.EOF) || errors.Is(err, io.ErrUnexpectedEOF) {
@@ -458,6 +465,16 @@ func exec(op string) string {
 		out := r.result
 		if fr := r.take(); fr != "-" {
 			out += " f=" + fr
+		}
+		if r.kind == "app" { // all packets delivered in this history, digested again NOW
+			var hs []string
+			for _, b := range r.kept {
+				hs = append(hs, strconv.Itoa(len(b))+":"+strconv.FormatUint(fnv64(b), 16))
+			}
+			if len(hs) == 0 {
+				hs = []string{"-"}
+			}
+			out += " h=" + strings.Join(hs, ",")
 		}
 		return out
 	}
